@@ -15,7 +15,7 @@ def run(args):
                        "backends; each backend is compared with HmsSem's observation and the two with each other "
                        "(same text, same outcome class, same message, corresponding fatal kind); non-trivial = "
                        "distinct program texts")
-    rep.assumptions = ["shared fragment only: no spawn, no trigger, no -> / ~> member access",
+    rep.assumptions = ["shared fragment only: no spawn, no trigger",
                        "floats outside the dyadic model are compared between the backends only"]
     progs = c01.programs(thorough, C.seed() + 1000, rnd)
     pool = C.Pool(C.build_worker())
@@ -41,6 +41,41 @@ def run(args):
             rep.fail(dict(p["feats"], kind="backends-disagree", family=p["feats"]["family"], id=pid),
                      {"program": rendered[pid][0], "vm": {"out": a["r"]["out"], "outcome": oa},
                       "tree": {"out": t["r"]["out"], "outcome": ot}})
+    # programs the specification does not decide (out of its model) and free-text programs over what it leaves out
+    # (text beyond ASCII, catchability of failing builtins, members, JSON): the two backends are still compared with
+    # each other - the property does not need an oracle for that
+    from . import progs as P
+    extra = [(p["id"], P.render(p)[0], p["feats"].get("family", "?")) for p in progs if cases[p["id"]]["status"] == "oom" and not p["feats"].get("vm_only")]
+    texts = ['"e\u0301"', '"ae\u0301o\u0308b"', '"\u00e9"', '"\U0001F600a"', '"Stra\u00dfe"', '"\u01c4"', '"a\u200db"']
+    for i, t in enumerate(texts):
+        extra.append(("text%d" % i, "fn main() { let s = %s; println(s.len(), s == %s, s.to_upper(), s.to_lower(), s.contains(\"e\"), s.split(\"e\"), s.replace(\"e\", \"E\"), "
+                      "s.repeat(2), s.starts_with(\"e\"), s.compare_lev(\"e\")); for c in s { print(c.len(), \" \"); } println(\"\"); let l = [s, %s]; l.sort(); println(l, l.join(\"|\"), [s].to_json()); "
+                      "println(s[0], s.substring(1)); let o = new { ? }; o.set(s, 1); println(o.keys(), o.get(s), o.to_json()); }\n" % (t, texts[(i + 1) % len(texts)], texts[(i + 2) % len(texts)]), "free-text"))
+    failing = ['"zz".parse_json()', '"x".parse_int()', '"x".parse_float()', '"x".parse_bool()', 'none.unwrap()', 'none.expect("m")', '[1][5]', '"ab"[7]', '"ab".substring(9)', '"a".repeat(0 - 1)',
+               '1 / 0', '1 % 0', '1.5 / 0.0', '2 ** (0 - 1)', '1 << 64', '1 << (0 - 1)', '[1].remove(4)', '[1].insert(9, 1)', '(new { ? })~>k', '"[1]".parse_json() as str', '[1..2].to_json()',
+               'assert(false)', 'throw("t")', '"é".parse_int()', '9223372036854775807 + 1', '(0 - 9223372036854775807 - 1) / (0 - 1)']
+    for i, e in enumerate(failing):
+        extra.append(("failing%d" % i, "fn main() { let o: ?int = none; try { let v = %s; println(\"value\", v); } catch e { println(\"caught\"); } println(\"after\"); }\n" % e.replace("none.", "o."), "failing-builtin"))
+    xreqs = [{"op": "run", "id": i, "a": {"modules": {"main": src}, "entry": "main", "backend": b, "timeout_ms": 8000}}
+             for i, (pid, src, fam) in enumerate(extra) for b in ("vm", "tree")]
+    xres = pool.map(xreqs, timeout=30)
+    for k, (pid, src, fam) in enumerate(extra):
+        a, t = xres[2 * k], xres[2 * k + 1]
+        rep.count()
+        rep.nontrivial(src)
+        feat = {"family": fam, "kind": "backends-disagree", "id": pid if fam != "free-text" and fam != "failing-builtin" else fam}
+        if "r" not in a or "r" not in t:
+            bad = a if "r" not in a else t
+            rep.fail(dict(feat, kind="hostcrash" if "crash" in bad else "hang", backend="vm" if "r" not in a else "tree",
+                          panic=sem.panic_class((bad.get("crash") or {}).get("stderr", ""))), {"program": src, "real": str(bad)[:1200]})
+            continue
+        if not a["r"]["accepted"]:
+            continue
+        pairs += 1
+        oa, ot = a["r"]["outcome"], t["r"]["outcome"]
+        if not (a["r"]["out"] == t["r"]["out"] and oa["kind"] == ot["kind"] and oa.get("fatal") == ot.get("fatal")):
+            rep.fail(feat, {"program": src, "vm": {"out": a["r"]["out"], "outcome": oa}, "tree": {"out": t["r"]["out"], "outcome": ot}})
+    rep.notes["compared_without_oracle"] = len(extra)
     rep.notes["backend_pairs_compared"] = pairs
     ok = [p for p in progs if p["id"] in rendered]
     for p in rnd.sample(ok, 3):
